@@ -687,7 +687,7 @@ fn run_s(prop: &'static str, tier: Tier) -> i32 {
         return 2;
     }
     let bound = std::env::var("VERIF_PREEMPTIONS").ok().and_then(|v| v.parse().ok()).unwrap_or(if tier == Tier::Quick { 3 } else { 4 });
-    let total = Duration::from_secs(std::env::var("VERIF_BUDGET_S").ok().and_then(|v| v.parse().ok()).unwrap_or(if tier == Tier::Quick { if prop == "C11" { 28 } else { 40 } } else { 900 }));
+    let total = Duration::from_secs(std::env::var("VERIF_BUDGET_S").ok().and_then(|v| v.parse().ok()).unwrap_or(if tier == Tier::Quick { if prop == "C11" { 22 } else { 40 } } else { 900 }));
     let started = Instant::now();
     let scs = scenarios(tier);
     let mut total_sched = 0u64;
@@ -719,7 +719,7 @@ fn run_s(prop: &'static str, tier: Tier) -> i32 {
     if prop == "C11" {
         // sequential half: no history of requests, blocks and node replies makes a handler or the
         // chain loop panic (engine T); its counts are added to states/transitions by merge_stats
-        crate::checks_t::c11_sequential(&run, tier, if tier == Tier::Quick { 18 } else { 400 });
+        crate::checks_t::c11_sequential(&run, tier, if tier == Tier::Quick { 14 } else { 400 });
         // ... and no reply of the node does: every RPC of the steps that talk to the node, answered with
         // every listed JSON-RPC error (or a result of the wrong shape)
         let n = crate::checks_outage::node_replies(&run, tier);
